@@ -37,9 +37,28 @@ def flat(d, prefix=""):
 
 
 def cols(t, with_index=True):
-    d = flat(t.asdict())
-    if not with_index:
-        d = {k: v for k, v in d.items() if not k.startswith("indexes/")}
+    """everything a table collection holds, read column by column through the attributes of the tables (not through asdict(), which is
+    one of the routes under test and must not be the observer as well)"""
+    d = {}
+    for name in tskit.TABLE_NAMES:
+        tab = getattr(t, name)
+        for c in tab.column_names:
+            v = np.asarray(getattr(tab, c))
+            d["%s/%s" % (name, c)] = (str(v.dtype), v.shape, v.tobytes())
+        if hasattr(tab, "metadata_schema"):
+            d["%s/metadata_schema" % name] = repr(tab.metadata_schema)
+    d["sequence_length"] = float(t.sequence_length).hex()
+    d["time_units"] = t.time_units
+    d["metadata"] = bytes(t.metadata_bytes)
+    d["metadata_schema"] = repr(t.metadata_schema)
+    rs = t.reference_sequence
+    d["reference_sequence"] = (rs.data, rs.url, bytes(rs.metadata_bytes), repr(rs.metadata_schema)) if t.has_reference_sequence() else None
+    if with_index:
+        d["has_index"] = bool(t.has_index())
+        ix = t.indexes
+        for c in ("edge_insertion_order", "edge_removal_order"):
+            v = getattr(ix, c)
+            d["indexes/" + c] = None if v is None else (str(np.asarray(v).dtype), np.asarray(v).shape, np.asarray(v).tobytes())
     return d
 
 
@@ -323,10 +342,21 @@ def stream_history(rng, objs, use_pipe):
     return ops
 
 
-def make_case(rng):
+def make_case(rng, edgeless=False):
     objs = []
     for i in range(rng.randint(2, 3)):
         t, valid = random_collection(rng)
+        if edgeless and i == 0:
+            # a collection without a single edge that is nevertheless indexed (has_index() holds over two empty arrays); top-level metadata as
+            # raw bytes without a schema
+            t.edges.clear()
+            try:
+                t.build_index()
+            except tskit.LibraryError:
+                pass                    # build_index looks at the references of an invalid collection; then it simply stays unindexed
+            valid = False
+            if not repr(t.metadata_schema):
+                t.metadata = b"\x00raw\xff"
         t.sequence_length = t.sequence_length + 1000 * (i + 1)   # make the objects pairwise distinct
         objs.append((t, valid))
     t0, v0 = objs[0]
@@ -363,7 +393,7 @@ def run():
         else:
             raise common.MachineryError("MC_Stream failed:\n" + mc["out"][-3000:])
     chk.exhaustive = mc["ok"]
-    cases = [make_case(rng) for _ in range(600 if QUICK else 20000)]
+    cases = [make_case(rng, edgeless=(i_ % 12 == 5)) for i_ in range(600 if QUICK else 20000)]
     # binding self-test
     corrupted = []
     for c in cases[:30]:
